@@ -16,7 +16,7 @@ func init() {
 		level: "other",
 		run:   runC08,
 		explanation: "The cell mapping of Array2D is decided completely from the address arithmetic: every index or slice bound applied to the backing slice is rendered as a polynomial over opaque atoms and split as Q1*width + Q0; the rule requires, on every path reaching the access, 0 <= Q1 < height and 0 <= Q0 < width (element) resp. 0 <= Q0lo <= Q0hi <= width (span), with the bounds derived from the path's own guard conditions, loop headers and, for unexported helpers and internally called exported methods, from obligations at every call site. " +
-			"For 0<=x<W, 0<=y<H the map (x,y) -> x + y*S is injective with image in [0,W*H) for all W,H iff S = W (two-line arithmetic lemma, stated here, not machine-checked), so a stride of height, a guard against the wrong dimension, a non-strict guard, an open-ended span or an unordered span are all refuted. " +
+			"For 0<=x<W, 0<=y<H the map (x,y) -> x + y*S is injective with image in [0,W*H) for all W,H iff S = W (arithmetic lemma, machine-checked with Lean 4 + Mathlib in /verif/lemmas/C08_cell.lean), so a stride of height, a guard against the wrong dimension, a non-strict guard, an open-ended span or an unordered span are all refuted. " +
 			"Also decided: New2D/New2DFilled allocate width*height and store the dimensions unswapped; Fill writes the span of its first row and copies it to exactly the following rows up to the last (after establishing the order of both coordinate pairs); Clone's backing slice is a fresh allocation of the same length. " +
 			"NOT decided: String's formatting; truncation of over-long jagged rows relies on copy's semantics (language).",
 		assumptions: []string{"arithmetic lemma: x + y*W is a bijection from [0,W)x[0,H) to [0,W*H)", "Go bounds checks panic on slice expressions outside capacity; copy copies min(len) elements", "width and height are non-negative whenever an in-range coordinate exists (make panics on a negative product; a negative width with a positive height cannot be constructed)"},
